@@ -408,6 +408,52 @@ impl Check for C10Computed {
     }
 }
 
+/// More distinct rows than any fixed-size memory of --unique would hold (2^16 and a bit), then
+/// repeats of early, middle and late rows: every repeat is removed, every first occurrence kept.
+#[derive(Clone, Debug, Serialize, Deserialize)]
+pub struct CaseManyDistinct {
+    pub distinct: u32,
+    pub through_split: bool,
+}
+pub struct C10ManyDistinct;
+impl Check for C10ManyDistinct {
+    type Case = CaseManyDistinct;
+    fn name(&self) -> &'static str {
+        "C10.many_distinct"
+    }
+    fn cases(&self, _t: Tier) -> u64 {
+        0
+    }
+    fn strategy(&self, _t: Tier) -> BoxedStrategy<CaseManyDistinct> {
+        Just(CaseManyDistinct { distinct: 70_000, through_split: false }).boxed()
+    }
+    fn check(&self, c: &CaseManyDistinct) -> CaseResult {
+        let n = c.distinct as usize;
+        let repeats: Vec<usize> = vec![0, 1, 2, 255, 256, 32_767, 32_768, 65_534, 65_535, 65_536, 65_537, n - 1, 0, n / 2].into_iter().filter(|x| *x < n).collect();
+        let mut vals: Vec<String> = (0..n).map(|i| if i % 3 == 0 { format!("{{\"id\":{}}}", i) } else if i % 3 == 1 { format!("\"s{}\"", i) } else { i.to_string() }).collect();
+        let firsts = vals.clone();
+        for r in &repeats {
+            vals.push(firsts[*r].clone());
+        }
+        let (input, args): (String, Vec<String>) = if c.through_split { (format!("[{}]", vals.join(",")), vec!["--split-by=.".into(), "--unique".into(), "--style=consise".into()]) } else { (vals.join("\n"), vec!["--unique".into(), "--style=consise".into()]) };
+        let o = run(&args, input.as_bytes());
+        if !o.res.is_ok() {
+            return CaseResult::Fail(format!("run failed: {}", o.res.short()));
+        }
+        let rows: Vec<&[u8]> = o.stdout.split(|b| *b == b'\n').filter(|l| !l.is_empty()).collect();
+        if rows.len() != n {
+            let extra: Vec<String> = rows.iter().skip(n).take(5).map(|l| esc_trunc(l, 40)).collect();
+            return CaseResult::Fail(format!("{} distinct rows followed by {} repeats: --unique printed {} rows (after the first {}: {:?})", n, repeats.len(), rows.len(), n, extra));
+        }
+        for (i, (r, f)) in rows.iter().zip(firsts.iter()).enumerate() {
+            if *r != f.as_bytes() {
+                return CaseResult::Fail(format!("row {} is {} instead of {}", i, esc_trunc(r, 60), f));
+            }
+        }
+        CaseResult::Pass(Info::new(true).class("more_than_65536_distinct_rows").class_if(c.through_split, "rows_from_one_split_value").obs(json!({"distinct": n, "repeats": repeats.len()})))
+    }
+}
+
 pub fn run_all(ctx: &mut Ctx) {
     ctx.rule = "C10.equality: jawk's = matrix over the whole universe must be an equivalence and agree with structural/numeric equality (exhaustive over pairs). C10.unique: 0..40 rows whose 0..3 selected values come from a per-case pool of 1..6 universe values (numerically equal spellings, escape variants, nested equal collections) or are absent; oracle: output with --unique = first-occurrence filter of the output without it under jawk's own = relation per selected value (absent only equals absent). non-trivial = at least one removed duplicate whose text differs from its first occurrence and >= 2 kept rows. C10.unique_wide: rows whose 0..3 selected values are large near-duplicates (ten families: 65- and 241-character strings, objects with the same members nested differently, 31-element arrays, 13-member objects, depth-8 nesting, each with three members that differ only at the very end, and two spellings per member), selections that share a title, JSON or csv output, optionally --sort-by on a member that is not selected (the survivors are the first occurrences in arrival order, then sorted), 0..40 explicit rows or 1000..5000 (70000 thorough) rows derived from a seed; oracle: first-occurrence filter of the plain output under equality by (family, member) per column; non-trivial = something was removed and two kept rows differ only in the tail of a value. C10.unique_computed: 0..23 numbers from a pool of 18 (whole and fractional, several spellings) through one of 14 arithmetic / conversion expressions, so that one number is reached by several routes; oracle: first-occurrence filter of the plain output by printed value".into();
     ctx.assumptions = vec!["universe excludes -0 and member-order permutations (quantifier)".into()];
@@ -415,8 +461,14 @@ pub fn run_all(ctx: &mut Ctx) {
     C10Unique.run(ctx);
     C10Wide.run(ctx);
     C10Computed.run(ctx);
+    ctx.rule.push_str(". C10.many_distinct: 70000 distinct rows (objects, strings, numbers) followed by 14 repeats of early, middle and late rows, as a stream and as the elements of one --split-by value: exactly the 70000 first occurrences in order");
+    for through_split in [false, true] {
+        let c = CaseManyDistinct { distinct: 70_000, through_split };
+        let r = C10ManyDistinct.check(&c);
+        ctx.record("C10.many_distinct", &serde_json::to_value(&c).unwrap(), r);
+    }
 }
 
 pub fn checks() -> Vec<Box<dyn DynCheck>> {
-    vec![Box::new(C10Unique), Box::new(C10Wide), Box::new(C10Computed)]
+    vec![Box::new(C10Unique), Box::new(C10Wide), Box::new(C10Computed), Box::new(C10ManyDistinct)]
 }
